@@ -15,8 +15,10 @@
 import Mathlib.Algebra.Order.Field.Basic
 import Mathlib.Tactic.Ring
 import Mathlib.Tactic.Linarith
+import Mathlib.Tactic.FieldSimp
 import Alpaqa.Proofs.Basic
 import Alpaqa.Proofs.C15Lemmas
+import Alpaqa.Props.C15
 
 namespace Alpaqa.ProxContract
 open Alpaqa
@@ -78,5 +80,115 @@ theorem envelope_le_cost (n : Nat) (hval : Vec α → α) (dom : Vec α → Prop
   have h := hr.opt x hx hn
   rw [sqNorm_vsub_self, dot_vsub_self, zero_div, add_zero, add_zero, ← hr.p_eq, ← hr.h_eq] at h
   linarith
+
+/-! ### Discharging the contract for the shipped box / box+ℓ1 step (`Props/C15.lean`) -/
+
+open Alpaqa.C15 Alpaqa.Props.C15 in
+/-- `h(u) = Σ_{i<n} λᵢ|uᵢ|` (`λ` from `l1_reg`: none, the scalar, or per component). -/
+def hL1 (l1 : Vec α) (n : Nat) (u : Vec α) : α :=
+  ((List.range n).map fun i => Alpaqa.Props.C15.lamAt l1 i * |vget u i|).sum
+
+/-- `dom h` = the `n`-vectors of the box `[lb, ub]`. -/
+def domBox (lb ub : Vec α) (n : Nat) (u : Vec α) : Prop :=
+  u.length = n ∧ ∀ i < n, vget lb i ≤ vget u i ∧ vget u i ≤ vget ub i
+
+theorem vsub_eq_map_range (n : Nat) (w x : Vec α) (hw : w.length = n) (hx : x.length = n) :
+    vsub w x = (List.range n).map fun i => vget w i - vget x i := by
+  have ew : w = (List.range n).map (vget w) := by
+    have := C15.eq_map_range_vget w; rwa [hw] at this
+  have ex : x = (List.range n).map (vget x) := by
+    have := C15.eq_map_range_vget x; rwa [hx] at this
+  conv_lhs => rw [ew, ex]
+  unfold vsub vzip
+  exact C15.zipWith_map_range n (vget w) (vget x) (· - ·)
+
+theorem sqNorm_vsub_eq (n : Nat) (w x : Vec α) (hw : w.length = n) (hx : x.length = n) :
+    sqNorm (vsub w x) = ((List.range n).map fun i => (vget w i - vget x i) ^ 2).sum := by
+  rw [vsub_eq_map_range n w x hw hx]
+  unfold sqNorm
+  rw [C15.vsum_eq_sum, List.map_map]
+  congr 1
+  apply List.map_congr_left
+  intro i _
+  simp only [Function.comp]
+  ring
+
+theorem dot_vsub_eq (n : Nat) (w x g : Vec α) (hw : w.length = n) (hx : x.length = n)
+    (hg : g.length = n) :
+    dot (vsub w x) g = ((List.range n).map fun i => (vget w i - vget x i) * vget g i).sum := by
+  have eg : g = (List.range n).map (vget g) := by
+    have := C15.eq_map_range_vget g; rwa [hg] at this
+  rw [vsub_eq_map_range n w x hw hx]
+  conv_lhs => rw [eg]
+  unfold dot vmul vzip
+  rw [C15.vsum_eq_sum, C15.zipWith_map_range]
+
+theorem sum_range_div (n : Nat) (f : Nat → α) (c : α) :
+    ((List.range n).map fun i => f i / c).sum = ((List.range n).map f).sum / c := by
+  induction n with
+  | zero => simp
+  | succ m ih =>
+    simp only [List.range_succ, List.map_append, List.sum_append, ih, List.map_cons, List.map_nil,
+      List.sum_cons, List.sum_nil, add_zero]
+    ring
+
+/-- The sum the C15 theorems speak about, in the terms of `ProxOpt.opt`. -/
+theorem model_sum_eq (n : Nat) (l1 : Vec α) (γ : α) (hγ : 0 < γ) (w x g : Vec α) (hw : w.length = n)
+    (hx : x.length = n) (hg : g.length = n) :
+    ((List.range n).map fun i =>
+        Alpaqa.Props.C15.lamAt l1 i * |vget w i| + (vget w i - (vget x i - γ * vget g i)) ^ 2 / (2 * γ)).sum
+      = hL1 l1 n w + sqNorm (vsub w x) / (2 * γ) + dot (vsub w x) g
+        + ((List.range n).map fun i => γ * vget g i ^ 2 / 2).sum := by
+  rw [sqNorm_vsub_eq n w x hw hx, dot_vsub_eq n w x g hw hx hg, ← sum_range_div]
+  unfold hL1
+  rw [← Alpaqa.Props.C15.sum_range_add, ← Alpaqa.Props.C15.sum_range_add,
+    ← Alpaqa.Props.C15.sum_range_add]
+  apply C15.sum_map_range_congr
+  intro i _
+  have : γ ≠ 0 := ne_of_gt hγ
+  field_simp
+  ring
+
+theorem proxGradStep_p_length (l1 : Vec α) (γ : α) (x g lb ub : Vec α) :
+    (C15.proxGradStep l1 γ x g lb ub).2.2.length = x.length := by
+  unfold C15.proxGradStep
+  split_ifs <;> simp
+
+/-- **The shipped `BoxConstrProblem::eval_prox_grad_step` meets the sized contract** (box, box +
+    scalar ℓ1, box + per-component ℓ1 with non-negative weights and `lb ≤ ub`), with
+    `h(u) = Σ λᵢ|uᵢ|` on the box and `+∞` outside. -/
+theorem boxL1_sized (n : Nat) (l1 lb ub : Vec α) (hb : ∀ i < n, vget lb i ≤ vget ub i)
+    (hl : ∀ i < n, 0 ≤ Alpaqa.Props.C15.lamAt l1 i) (hlen : l1.length ≤ 1 ∨ l1.length = n) :
+    Sized n (hL1 l1 n) (domBox lb ub n) (fun γ x g => C15.proxGradStep l1 γ x g lb ub) := by
+  intro γ x g hγ hx hg
+  have hxl := Alpaqa.Props.C15.proxGradStep_xhat_length l1 γ x g lb ub
+  rw [hx] at hxl
+  have hfeas : domBox lb ub n (C15.proxGradStep l1 γ x g lb ub).2.1 := by
+    refine ⟨hxl, fun i hi => ?_⟩
+    rw [Alpaqa.Props.C15.proxGradStep_xhat _ _ _ _ _ _ _ (by rw [hx]; exact hi)]
+    exact Alpaqa.Props.C15.boxL1_in_box _ _ _ _ (hb i hi)
+  refine ⟨hxl, ?_, ?_, hfeas, ?_⟩
+  · -- p = x̂ − x
+    rw [vsub_eq_map_range n _ x hxl hx]
+    have hpl := proxGradStep_p_length l1 γ x g lb ub
+    rw [hx] at hpl
+    have ep := C15.eq_map_range_vget (C15.proxGradStep l1 γ x g lb ub).2.2
+    rw [hpl] at ep
+    rw [ep]
+    apply List.map_congr_left
+    intro i hi
+    exact Alpaqa.Props.C15.proxGradStep_p_eq l1 γ x g lb ub i (by rw [hx]; exact List.mem_range.mp hi)
+  · -- returned value = h(x̂)
+    have := Alpaqa.Props.C15.proxGradStep_returns_h l1 γ x g lb ub (by rw [hx]; exact hl)
+      (by rw [hx]; exact hlen)
+    rw [hx] at this
+    exact this
+  · -- optimality
+    intro u hu hun
+    have hopt := Alpaqa.Props.C15.proxGradStep_vector_is_prox l1 γ x g lb ub hγ (by rw [hx]; exact hb)
+      (by rw [hx]; exact hl) u (by rw [hx]; exact hu.2)
+    rw [hx] at hopt
+    rw [model_sum_eq n l1 γ hγ _ x g hxl hx hg, model_sum_eq n l1 γ hγ u x g hun hx hg] at hopt
+    linarith
 
 end Alpaqa.ProxContract
